@@ -225,6 +225,29 @@ func run(prop *property, tier int, tierName string, seed int64, replay, scratch 
 		parts = sel
 	}
 
+	// development aids (never set by registered commands): VERIF_ONLY_PARTS=a,b restricts the
+	// run to the named parts; VERIF_FUZZTIME overrides the native fuzzing time.
+	if only := os.Getenv("VERIF_ONLY_PARTS"); only != "" && replay == "" {
+		var sel []part
+		for _, p := range parts {
+			for _, n := range strings.Split(only, ",") {
+				if p.name == n {
+					sel = append(sel, p)
+				}
+			}
+		}
+		parts = sel
+	}
+	if d, err := time.ParseDuration(os.Getenv("VERIF_FUZZTIME")); err == nil {
+		for i := range parts {
+			if parts[i].fuzz != "" {
+				parts[i].fuzztime = [2]time.Duration{d, d}
+				if parts[i].shards[0] == 0 {
+					parts[i].shards[0] = 1
+				}
+			}
+		}
+	}
 	if err := setupRepoOverride(scratch); err != nil {
 		fmt.Fprintf(os.Stderr, "INCONCLUSIVE property=%s: %v\n", id, err)
 		return 2
@@ -265,12 +288,19 @@ func run(prop *property, tier int, tierName string, seed int64, replay, scratch 
 				return 2
 			}
 		}
-		key := p.pkg + "|" + strconv.FormatBool(p.race) + "|" + p.tags
+		key := p.pkg + "|" + strconv.FormatBool(p.race) + "|" + p.tags + "|" + strconv.FormatBool(p.fuzz != "")
 		if _, ok := built[key]; ok {
+			continue
+		}
+		if p.fuzz != "" && (p.fuzztime[tier] <= 0 || replay != "") && p.shards[tier] <= 0 {
 			continue
 		}
 		out := filepath.Join(scratch, fmt.Sprintf("t%d.test", len(built)))
 		args := []string{"test", "-c", "-vet=off", "-o", out}
+		if p.fuzz != "" {
+			// coverage instrumentation for the native fuzzer
+			args = append(args, "-fuzz", "^"+p.fuzz+"$")
+		}
 		if p.race {
 			args = append(args, "-race")
 		}
@@ -292,7 +322,7 @@ func run(prop *property, tier int, tierName string, seed int64, replay, scratch 
 	var wg sync.WaitGroup
 	sem := make(chan struct{}, 16)
 	for pi, p := range parts {
-		key := p.pkg + "|" + strconv.FormatBool(p.race) + "|" + p.tags
+		key := p.pkg + "|" + strconv.FormatBool(p.race) + "|" + p.tags + "|" + strconv.FormatBool(p.fuzz != "")
 		bin := built[key]
 		n := p.shards[tier]
 		if n <= 0 {
@@ -340,7 +370,11 @@ func run(prop *property, tier int, tierName string, seed int64, replay, scratch 
 						fuzzExecs, _ = strconv.ParseInt(m[len(m)-1][1], 10, 64)
 					}
 					if ferr != nil {
-						fuzzNote = "native fuzzing stopped with a failing input (re-run below): " + lastLines(fout.String(), 6)
+						if saved, _ := filepath.Glob(filepath.Join(dir, "testdata", "fuzz", p.fuzz, "*")); len(saved) > 0 {
+							fuzzNote = "native fuzzing stopped with a failing input (re-run in-process below): " + lastLines(fout.String(), 6)
+						} else {
+							fuzzNote = "BROKEN native fuzzing run ended with an error but saved no failing input: " + lastLines(fout.String(), 6)
+						}
 					}
 					os.RemoveAll(filepath.Join(dir, "fuzzcache"))
 					p.run = "^" + p.fuzz + "$"
@@ -468,6 +502,9 @@ func run(prop *property, tier int, tierName string, seed int64, replay, scratch 
 		}
 		if r.fuzzNote != "" {
 			notes = append(notes, r.fuzzNote)
+			if strings.HasPrefix(r.fuzzNote, "BROKEN") {
+				inconclusive = append(inconclusive, fmt.Sprintf("%s/%d: %s", r.part, r.idx, r.fuzzNote))
+			}
 		}
 		ps.Evaluations += s.Evaluations
 		evals += s.Evaluations
